@@ -143,12 +143,16 @@ type walker struct {
 	// 0 = default (2), negative = never inline.
 	Inline int
 	// Init may pre-populate the memory of the initial state (e.g. the elements of a slice parameter).
-	Init      func(w *walker, st *wstate)
-	seedSkip  *ssa.Call
-	MaxVisits int // per block per path (default 2)
-	MaxPaths  int
-	paths     int
-	Truncated bool
+	Init func(w *walker, st *wstate)
+	// MemoStates: a block entered again in an identical abstract state (constants, pointers, notes) is not explored
+	// twice (keeps functions with many independent symbolic branches tractable). Only for rules whose per-path
+	// bookkeeping lives in the state (note/bump), never in variables captured by the hooks.
+	MemoStates bool
+	seedSkip   *ssa.Call
+	MaxVisits  int // per block per path (default 2)
+	MaxPaths   int
+	paths      int
+	Truncated  bool
 }
 
 func (w *walker) Run() {
@@ -184,6 +188,9 @@ func (w *walker) Run() {
 // static calls into the module.
 func (w *walker) runInlining() {
 	x := &xwalker{w: w, MaxSteps: 400000, MaxPaths: w.MaxPaths, MaxVisits: w.MaxVisits}
+	if w.MemoStates {
+		x.Memo = map[string]bool{}
+	}
 	x.Call = func(x *xwalker, st *xstate, call *ssa.Call) ([]xoutcome, bool) {
 		if w.Seed != nil {
 			if a := w.Seed(w, st.wstate, call); a != nil {
@@ -304,6 +311,14 @@ func (w *walker) load(st *wstate, key string, t types.Type) *absVal {
 	if a, ok := st.mem[key]; ok {
 		return a
 	}
+	// array value assembled from its elements (constant-length literal tables)
+	if at, ok := t.Underlying().(*types.Array); ok && at.Len() <= 64 {
+		f := map[string]*absVal{}
+		for i := int64(0); i < at.Len(); i++ {
+			f[fmt.Sprint(i)] = w.load(st, fmt.Sprintf("%s[%d]", key, i), at.Elem())
+		}
+		return &absVal{k: avStruct, fields: f}
+	}
 	// struct assembled from fields?
 	if stt, ok := t.Underlying().(*types.Struct); ok {
 		f := map[string]*absVal{}
@@ -421,6 +436,16 @@ func (w *walker) transfer(st *wstate, in ssa.Instruction, prev *ssa.BasicBlock) 
 		} else {
 			st.vals[x] = avSymOf(x)
 		}
+	case *ssa.Index:
+		// element of an array value with a constant index
+		b, i := w.eval(st, x.X), w.eval(st, x.Index)
+		if b.k == avStruct && i.k == avConst {
+			if f, ok := b.fields[i.c.ExactString()]; ok {
+				st.vals[x] = f
+				return
+			}
+		}
+		st.vals[x] = avSymOf(x)
 	case *ssa.Field:
 		b := w.eval(st, x.X)
 		if b.k == avStruct {
@@ -692,3 +717,33 @@ func errPropagated(p *Prog, ev ssa.Value) (bool, string) {
 // walkerTruncations collects the functions whose exploration hit the path or step limit during the current
 // check: their tables are incomplete, so the check reports itself undecided instead of passing.
 var walkerTruncations []string
+
+// Per-path bookkeeping of a rule lives in the state's memory (which is copied when a path forks), not in maps keyed
+// by the state object: note / noted / count.
+func (s *wstate) note(name string) { s.mem["EV:"+name] = avBool(true) }
+func (s *wstate) noted(name string) bool {
+	v, ok := s.mem["EV:"+name]
+	if !ok {
+		return false
+	}
+	b, _ := v.Bool()
+	return b
+}
+func (s *wstate) bump(name string) {
+	s.mem["EV:"+name] = avInt(int64(s.count(name) + 1))
+}
+func (s *wstate) count(name string) int {
+	if v, ok := s.mem["EV:"+name]; ok && v.k == avConst {
+		if n, ok := constant.Int64Val(v.c); ok {
+			return int(n)
+		}
+	}
+	return 0
+}
+func (s *wstate) noteStr(name, val string) { s.mem["EV:"+name] = avStr(val) }
+func (s *wstate) notedStr(name string) string {
+	if v, ok := s.mem["EV:"+name]; ok && v.k == avConst && v.c.Kind() == constant.String {
+		return constant.StringVal(v.c)
+	}
+	return ""
+}
